@@ -64,6 +64,7 @@ func checkC13(p *Prog, r *Report) {
 	ruleWsTok(p, r)
 	ruleEntity(p, r)
 	ruleMarkup(p, r)
+	ruleChunkPat(p, r) // no floor: a scanner without a chunked read has no instance
 	r.Floor("MARKUP", 1)
 	r.Floor("ENTITY", 10)
 	r.Floor("WSTOK", 5)
